@@ -117,6 +117,13 @@ PLANS["C01"] = dict(
                  select=lambda cases, tier, seed: [c for c in cases if c["in"]["api"] == "blob"]),
         drive=dict(driver="roundtrip"),
         validate=dict(module="Trace_NotationRT", cfg=trace_cfg(), only_rules=["broken-reader", "wrong-blob", "wrong-media-type", "no-panic"]),
+    ), dict(
+        # the convenience entry point notation.Verify tries several signatures: the outcome it hands back on success is the accepted
+        # signature's (whose payload names the artifact), not that of a signature it rejected on the way
+        name="registry-loop",
+        gen=dict(module="MC_Notation_C10", cfg=lambda tier, seed: mc_cfg(["Inv_C10", "Inv_Emit"], consts=["MaxLen = 3", "MaxN = 4"]), select=take_all),
+        drive=dict(driver="notation-verify"),
+        validate=dict(module="Trace_Notation", cfg=trace_cfg(), only_rules=["returned", "no-panic"]),
     )],
 )
 
